@@ -31,7 +31,7 @@ func jobC08x(c *rt.Ctx) {
 			c.Sample(s)
 		}
 	}
-	for _, s := range nibScalars(c.Thorough()) {
+	for _, s := range append(nibScalars(c.Thorough()), carryRunScalars(c.Thorough())...) {
 		if !c.Take() {
 			continue
 		}
